@@ -82,8 +82,10 @@ pub fn gen_kb(r: &mut Rng) -> KbSetting {
         2 => (KeyId::HolderEc2, Some("ES256".to_string())),
         _ => (KeyId::HolderEd, Some("EdDSA".to_string())),
     };
-    let nonce = if r.chance(1, 2) { format!("nonce-{}", r.next() % 100000) } else { gen_string(r, false) };
-    let aud = if r.chance(1, 2) { "https://verifier.example".to_string() } else { gen_string(r, false) };
+    // now and then strings that look like JSON, numbers, URLs with trailing separators: to the library they are opaque text
+    let odd = ["[\"a\",\"b\"]", "[]", "[\"https://verifier.example\"]", "{\"aud\":\"x\"}", "\"quoted\"", "null", "true", "0", "12345", "1e3", "-1", " padded ", "https://verifier.example/", "a,b", "a b", "%41", "\\u0041"];
+    let nonce = match r.below(8) { 0 => r.pick(&odd).to_string(), 1..=4 => format!("nonce-{}", r.next() % 100000), _ => gen_string(r, false) };
+    let aud = match r.below(8) { 0 | 1 => r.pick(&odd).to_string(), 2..=4 => "https://verifier.example".to_string(), _ => gen_string(r, false) };
     KbSetting { key, alg, nonce, aud }
 }
 
